@@ -964,6 +964,8 @@ class Scene(DaeObject):
                 else:
                     if N is not None:
                         nodes.append(N)
+                        if N.id and N.id not in localscope:
+                            localscope[N.id] = N
                         succeeded = True
             tried_loading = next_tried
         if len(tried_loading) > 0:
